@@ -35,8 +35,12 @@ class Check(PropertyCheck):
                   "at every step, not proved. stop_restores_queued holds only for flows without an older backup (finding "
                   "F-C53a: Flow.backup() keeps an existing backup); the full statement is refuted by "
                   "stop_restores_queued_counterexample. trusted: asyncio.Queue is FIFO; a flow's editable state is "
-                  "abstracted to response/error/is_replay + an edit counter; flow.live during a replay is not modelled "
-                  "(flow.live is modelled as set at the start and cleared at the end of a replay of the flow).")
+                  "abstracted to response/error/is_replay + an edit counter; flow.live is modelled as set at the start "
+                  "and cleared at the end of a replay of the flow. stop_replay while a queued flow has a replay running over "
+                  "an open server connection is outside the model (findings F-C53b: revert raises, F-C53c: revert silently "
+                  "rewrites the live connection); such cases are not compared with the model, their oracle failures are "
+                  "excused only where known() recomputes exactly the predicted wrong outcome (known_selftest pins positives "
+                  "and near misses); a queued flow whose running replay has not connected yet IS compared.")
     technique = "Lean 4 proof (invariants over all histories) + virtual-time correspondence with the real addon and replay handler"
     rule = ("scripts over {start_replay(list of flows incl. unreplayable kinds, duplicates), stop_replay, user edit, "
             "client_replay_concurrency switched 1 <-> -1 at idle and busy moments (initial value 1 or -1), server "
@@ -51,11 +55,106 @@ class Check(PropertyCheck):
     trusted_base = ["asyncio.Queue FIFO semantics", "the HTTP layer stack below ReplayHandler is exercised, not modelled"]
     parallel = False
 
+    def setup(self, tier):
+        self.known_selftest()
+
+    def known_selftest(self):
+        """known() on hand-written observations (independent of the tree under test): one positive witness per finding and,
+        for each, near misses — the same input class with a different failure, and a neighbouring input with the same kind
+        of failure — which must NOT be excused."""
+        def stop(**kw):
+            d = {"queued": [], "bad": [], "left": [], "inflight": [], "open": [], "open_ords": [], "awaited": -1, "exc": None}
+            d.update(kw); return ["stop", d]
+        case = {"flows": ["edited", "ok", "ok"], "steps": []}
+        NOT = "not restored to its pre-replay state: "
+        STALE = NOT + "it was reverted to the older backup it carried when it was queued"
+        OTHER = NOT + "its state is neither the pre-replay state nor an older backup"
+        RE = "RuntimeError: Cannot change server.address on open connection."
+        T = []
+        # --- F-C53a
+        a = {"trace": [["start", [0, 1], [0], ["none", "none"]], stop(queued=[0, 1], bad=[[0, "stale-backup"]])]}
+        T += [(a, f"stop#1: flow 0 {STALE}", "F-C53a"),
+              (a, f"stop#1: flow 0 {OTHER}", None),                       # same input, other failure kind
+              (a, f"stop#1: flow 1 {STALE}", None),                       # neighbour flow without a stale backup
+              (a, "stop#1: stop_replay left flows [1] in the queue", None),
+              (a, "flow 1 taken out of queue order (head [0])", None)]
+        a2 = {"trace": [stop(queued=[0], bad=[[0, "other"]])]}
+        T += [(a2, f"stop#1: flow 0 {STALE}", None)]                      # the record does not show the stale backup
+        a3 = {"trace": [stop(queued=[0], bad=[[0, "stale-backup"]], exc="ValueError: x")]}
+        T += [(a3, f"stop#1: flow 0 {STALE}", None)]                      # the stop did not run to completion
+        a4 = {"trace": [stop(queued=[0, 1, 0], bad=[[0, "stale-backup"], [1, "other"]], left=[0], inflight=[1], open=[1],
+                             open_ords=[[0, 1]], awaited=1, exc=RE)]}
+        T += [(a4, f"stop#1: flow 0 {STALE}", "F-C53a"),                  # reverted before the F-C53b abort
+              (a4, f"stop#1: flow 1 {STALE}", None)]
+        # --- F-C53b
+        b = {"trace": [stop(queued=[2, 1, 1, 2], bad=[[1, "other"], [2, "other"]], left=[1, 2], inflight=[1], open=[1],
+                            open_ords=[[0, 1]], awaited=1, exc=RE)]}
+        T += [(b, f"stop#1: stop_replay raised {RE}", "F-C53b"),
+              (b, "stop#1: stop_replay left flows [1, 2] in the queue", "F-C53b"),
+              (b, f"stop#1: flow 1 {OTHER}", "F-C53b"),
+              (b, "replay #0 of flow 1 ended with neither response nor error", "F-C53b"),
+              (b, "after the server answered or refused everything pending, flows [1, 2] are still queued and flow 1 is still "
+                  "in flight: the playback loop is stuck", "F-C53b"),
+              (b, "stop#1: stop_replay left flows [2] in the queue", None),           # not the predicted remainder
+              (b, "stop#1: stop_replay raised KeyError: 'x'", None),                  # another exception
+              (b, "replay #3 of flow 1 ended with neither response nor error", None),  # another replay of that flow
+              (b, "replay #0 of flow 2 ended with neither response nor error", None),
+              (b, "after the server answered or refused everything pending, flows [] are still queued and flow 2 is still "
+                  "in flight: the playback loop is stuck", None),
+              (b, "flow 2 taken while replay #0 of flow 1, started with client_replay_concurrency=1, had not finished", None),
+              (b, "unreplayable flow 0 (ws) was queued", None)]
+        b0 = {"trace": [stop(queued=[0, 1, 2], bad=[[0, "other"], [1, "other"]], left=[2], inflight=[1], open=[1],
+                             open_ords=[[0, 1]], awaited=1, exc=RE)]}
+        T += [(b0, f"stop#1: flow 0 {OTHER}", None)]                      # an entry BEFORE the one whose revert raised
+        bn = {"trace": [stop(queued=[1, 2], left=[2], bad=[[2, "other"]], inflight=[1], open=[], awaited=1, exc=None)]}
+        T += [(bn, "stop#1: stop_replay left flows [2] in the queue", None),          # in flight, but no open connection
+              (bn, f"stop#1: flow 2 {OTHER}", None)]
+        b2 = {"trace": [b["trace"][0], stop(queued=[1, 2], bad=[[1, "other"]], left=[2], inflight=[1], open=[1],
+                                            open_ords=[[0, 1]], awaited=1, exc="KeyError: 'request'")]}
+        T += [(b2, "stop#2: stop_replay raised KeyError: 'request'", "F-C53b"),
+              (b2, "stop#2: stop_replay left flows [2] in the queue", "F-C53b"),
+              (b2, "stop#2: stop_replay left flows [1, 2] in the queue", None)]
+        bk = {"trace": [stop(queued=[1, 2], bad=[], left=[2], exc="KeyError: 'request'")]}
+        T += [(bk, "stop#1: stop_replay raised KeyError: 'request'", None)]           # no earlier F-C53b stop
+        b3 = {"trace": [b["trace"][0], stop(queued=[0, 1, 2], bad=[[0, "stale-backup"], [1, "other"]], left=[2], inflight=[1],
+                                            open=[1], open_ords=[[0, 1]], awaited=1, exc="KeyError: 'request'")]}
+        T += [(b3, f"stop#2: flow 0 {STALE}", "F-C53a"),                  # reverted before the poisoned flow's entry
+              (b3, f"stop#2: flow 2 {STALE}", None)]
+        # --- F-C53c
+        c = {"trace": [stop(queued=[0, 1], inflight=[0], open=[0], open_ords=[[0, 0]], awaited=0)]}
+        T += [(c, "replay #0 of flow 0 ended with neither response nor error", "F-C53c"),
+              (c, "after the server answered or refused everything pending, flows [] are still queued and flow 0 is still in "
+                  "flight: the playback loop is stuck", "F-C53c"),
+              (c, "replay #1 of flow 0 ended with neither response nor error", None),
+              (c, "replay #0 of flow 1 ended with neither response nor error", None),
+              (c, "stop#1: stop_replay left flows [1] in the queue", None),
+              (c, f"stop#1: flow 0 {OTHER}", None)]
+        cn = {"trace": [stop(queued=[1], inflight=[0], open=[0], open_ords=[[0, 0]], awaited=0)]}
+        T += [(cn, "replay #0 of flow 0 ended with neither response nor error", None)]  # the running flow was not queued
+        cc = {"trace": [stop(queued=[0, 1], inflight=[0], open=[], open_ords=[], awaited=0)]}
+        T += [(cc, "replay #0 of flow 0 ended with neither response nor error", None)]  # connection not open
+        for obs, failure, want in T:
+            got = self.known(case, obs, failure)
+            assert got == want, f"C53 known_selftest: known(...{failure!r}) = {got!r}, expected {want!r}"
+        # the oracle itself must fire on doctored observations (a silent oracle cannot pass)
+        base = [["start", [0, 1], [], ["none", "none"]], ["enq", 0], ["enq", 1], ["take", 0, 1], ["arrive", 0, 0],
+                ["finish", 0, "response", 0], ["take", 1, 1], ["finish", 1, "error", 1], ["winddown"],
+                ["state", [], -1, [], 1, 0]]
+        okc = {"flows": ["ok", "ok"], "steps": []}
+        assert self.oracle(okc, {"trace": base}) == []
+        def doctored(f): return self.oracle(okc, {"trace": f([list(x) for x in base])})
+        assert doctored(lambda t: t[:5] + t[6:7] + t[5:6] + t[7:]), "overlap oracle is silent"
+        assert doctored(lambda t: t[:1] + [t[2], t[1]] + t[3:]), "submission-order oracle is silent"
+        assert doctored(lambda t: t[:3] + [["take", 1, 1]] + t[4:6] + [["take", 0, 1]] + t[7:]), "queue-order oracle is silent"
+        assert doctored(lambda t: t[:7] + t[8:]), "completion oracle is silent"
+        assert doctored(lambda t: t[:-1] + [["state", [1], -1, [], 1, 0]]), "stuck-loop oracle is silent"
+        assert self.oracle({"flows": ["ws", "ok"], "steps": []}, {"trace": base}), "unreplayable oracle is silent"
+
     # ---- generation ---------------------------------------------------------------------------
     def generate(self, rng, tier):
         while True:
             nf = rng.randint(1, 5)
-            flows = [rng.choice(E.KINDS[:3] + ["ok", "ok", "ok_resp", "edited"]) if rng.random() < 0.7 else rng.choice(E.KINDS)
+            flows = [rng.choice(E.KINDS[:3] + ["ok", "ok", "ok_resp", "edited", "ok_same", "ok_same"]) if rng.random() < 0.7 else rng.choice(E.KINDS)
                      for _ in range(nf)]
             steps = []
             for _ in range(rng.randint(2, 14)):
@@ -88,9 +187,21 @@ class Check(PropertyCheck):
         tr = obs["trace"]; kinds = case["flows"]
         enq = []; wound = False; nstop = 0
         replays = []      # by ordinal (order of `take`): [flow, option value when it was started, request arrived, finished]
+        calls = []        # per start_replay call: [the flows the user listed, in order] and what was queued during it
         for r in tr:
             k = r[0]
+            if k == "start": calls.append([list(r[1]), []])
+            elif k != "enq" and calls and calls[-1] is not None: calls.append(None)      # the call is over
             if k == "enq":
+                # queue order is the order of SUBMISSION: what a call queues is a subsequence of the list the user gave
+                # (derived from the input of the case, not from another observation of the addon)
+                cur = next((c for c in reversed(calls) if c is not None), None) if calls and calls[-1] is not None else None
+                if cur is None: fails.append(f"flow {r[1]} was queued outside any start_replay call")
+                else:
+                    cur[1].append(r[1])
+                    it = iter(cur[0])
+                    if not all(any(x == y for y in it) for x in cur[1]):
+                        fails.append(f"start_replay({cur[0]}) queued {cur[1]}: not in the order the flows were submitted")
                 enq.append(r[1])
                 # "Flows that cannot be replayed (live, intercepted, missing content, non-HTTP, WebSocket) are never queued"
                 if kinds[r[1]] in UNREPLAYABLE: fails.append(f"unreplayable flow {r[1]} ({kinds[r[1]]}) was queued")
@@ -173,10 +284,22 @@ class Check(PropertyCheck):
             if not (1 <= n <= len(stops)): return None
             st = stops[n - 1]; k = self._hit_open(st)
             rerr = (st["exc"] or "").startswith("RuntimeError: Cannot change server.")
-            # F-C53a: the stop ran to completion, the flow carried an older backup when it was queued, and what the
-            # flow looks like now IS that older backup
+            if not rerr and (st["exc"] or "").startswith("KeyError:"):
+                # aftermath of an earlier F-C53b stop: the revert() that raised had already consumed that flow's backup
+                # dict (set_state pops from it), so reverting the same flow again raises KeyError; predicted as above
+                poisoned = set()
+                for prev in stops[:n - 1]:
+                    kp = self._hit_open(prev)
+                    if kp is not None and (prev["exc"] or "").startswith("RuntimeError: Cannot change server."):
+                        poisoned.add(prev["queued"][kp])
+                k = next((j for j, i in enumerate(st["queued"]) if i in poisoned), None)
+                rerr = k is not None
+            # F-C53a: the flow carried an older backup when it was queued, revert() ran for it (the stop completed, or the
+            # flow's entry lies before the entry at which an F-C53b stop aborted), and what the flow looks like now IS that
+            # older backup
             mm = re.match(r"flow (\d+) not restored to its pre-replay state: it was reverted to the older backup", rest)
-            if mm and st["exc"] is None and [int(mm.group(1)), "stale-backup"] in st["bad"]:
+            if mm and [int(mm.group(1)), "stale-backup"] in st["bad"] and (
+                    st["exc"] is None or (rerr and k is not None and int(mm.group(1)) in st["queued"][:k])):
                 return "F-C53a"
             # F-C53b: revert() of a queued flow whose replay runs over an open connection raised out of stop_replay; predicted:
             # that very exception, the entries behind it still queued, it and they not restored
